@@ -179,7 +179,7 @@ def work_deep(task):
 
 def run(tier, t0):
     acc = common.Acc()
-    H = 7 if tier == 'quick' else 9
+    H = 7 if tier == 'quick' else 10
     tasks = []
     for o in ORIENTATIONS:
         for h in range(1, H + 1):
